@@ -58,6 +58,11 @@ def desugar(raw, max_rounds=6):
                 f = t.get("func", {})
                 if not (f.get("k") == "const" and "fn" in f):
                     continue
+                if f["fn"]["path"] in CLOSURE_CALLS:
+                    if _rewrite_closure_call(b, bi, t, by_path):
+                        n += 1
+                        changed = True
+                    continue
                 if f["fn"]["path"] in ITER_CONSUMERS:
                     if _rewrite_iter(b, bi, t, ITER_CONSUMERS[f["fn"]["path"]], by_path):
                         n += 1
@@ -201,6 +206,66 @@ def _apply(B_, body, by_path, bb, fop, arg_ops, dest_local, dest_ty, unwind):
         B_.assign(bb, P(lo + 2 + i, callee["locals"][2 + i]["ty"]), {"rv": "use", "op": a})
     B_.term(bb, {"t": "goto", "target": bo, "inlined": cpath})
     return cont
+
+
+CLOSURE_CALLS = {"std::ops::FnMut::call_mut", "std::ops::Fn::call", "std::ops::FnOnce::call_once"}
+
+
+def _closure_behind(body, op, depth=0):
+    """the local holding the closure value that operand `op` is (a reference to / a copy of), if statically known"""
+    if op.get("k") not in ("move", "copy") or op["pl"]["p"] or depth > 5:
+        return None
+    l = op["pl"]["l"]
+    if _closure_of(body, op) is not None:
+        return op
+    defs = []
+    for blk in body["blocks"]:
+        for st in blk["stmts"]:
+            if st["s"] == "assign" and not st["pl"]["p"] and st["pl"]["l"] == l:
+                defs.append(st["rv"])
+        t = blk["term"]
+        if t.get("t") == "call" and not t["dest"]["p"] and t["dest"]["l"] == l:
+            return None
+    if len(defs) != 1:
+        return None
+    rv = defs[0]
+    if rv["rv"] == "ref" and (not rv["pl"]["p"] or rv["pl"]["p"] == ["*"]):
+        return _closure_behind(body, {"k": "move", "pl": {"l": rv["pl"]["l"], "p": [], "ty": "?"}}, depth + 1)
+    if rv["rv"] == "use" and rv["op"].get("k") in ("move", "copy") and not rv["op"]["pl"]["p"]:
+        return _closure_behind(body, rv["op"], depth + 1)
+    return None
+
+
+def _rewrite_closure_call(body, bi, t, by_path):
+    """`f(args)` where f is a closure of the crate whose value is statically known at the call (typically after
+    a helper taking `impl FnMut` was spliced into its caller): the closure body is inlined"""
+    args = t["args"]
+    if len(args) != 2 or t["dest"]["p"] or t.get("target") is None:
+        return False
+    cop = _closure_behind(body, args[0])
+    if cop is None:
+        return False
+    cl = _closure_of(body, cop)
+    cands = by_path.get(cl[1], [])
+    if len(cands) != 1:
+        return False
+    callee = cands[0]
+    tup = args[1]
+    if tup.get("k") not in ("move", "copy") or tup["pl"]["p"]:
+        if not (tup.get("k") == "const"):
+            return False
+    nparams = callee["arg_count"] - 1
+    arg_ops = []
+    for i in range(nparams):
+        arg_ops.append({"k": "move", "pl": {"l": tup["pl"]["l"], "p": [{"f": i, "ty": "?", "name": str(i)}], "ty": "?"}})
+    Bd = B(body, t["span"])
+    dl, dty = t["dest"]["l"], t["dest"]["ty"]
+    target, unwind = t["target"], t.get("unwind")
+    cont = _apply(Bd, body, by_path, bi, cop, arg_ops, dl, dty, unwind)
+    if cont is None:
+        return False
+    Bd.term(cont, {"t": "goto", "target": target})
+    return True
 
 
 ITER_CONSUMERS = {"std::iter::Iterator::for_each": "for_each", "std::iter::Iterator::try_for_each": "try_for_each"}
